@@ -515,7 +515,7 @@ class SimulationBuilder:
 
                     persons_to_allocate.discard(person_id)
 
-            entity_index = entity_ids.index(instance_id)
+            entity_index = entity_ids.index(str(instance_id))
             role_by_plural = {role.plural or role.key: role for role in entity.roles}
 
             for role_plural, persons_with_role in roles_json.items():
@@ -535,7 +535,7 @@ class SimulationBuilder:
                     )
                     self.roles[entity.plural][person_index] = person_role
 
-            self.init_variable_values(entity, variables_json, instance_id)
+            self.init_variable_values(entity, variables_json, str(instance_id))
 
         if persons_to_allocate:
             entity_ids = entity_ids + list(persons_to_allocate)
